@@ -495,3 +495,25 @@ pub fn vp8_read_residual_data(
 ) -> Result<(Vec<i32>, bool, [u8; 9], [u8; 9]), DecodingError> {
     crate::vp8::verif_read_residual_data(data, probs, bpred, top, left, quant)
 }
+
+/// `intra_predict_luma` + `intra_predict_chroma` for one macroblock (see `vp8::verif_intra_predict`).
+#[allow(clippy::too_many_arguments, clippy::type_complexity)]
+pub fn vp8_intra_predict(
+    mbw: u16,
+    mbh: u16,
+    mbx: usize,
+    mby: usize,
+    luma_mode: i8,
+    chroma_mode: i8,
+    bmodes: [i8; 16],
+    resdata: &[i32],
+    top_border: &[u8],
+    left_border: &[u8],
+    ybuf: &[u8],
+    ubuf: &[u8],
+    vbuf: &[u8],
+) -> Option<(Vec<u8>, Vec<u8>, Vec<u8>, Vec<u8>, Vec<u8>)> {
+    crate::vp8::verif_intra_predict(
+        mbw, mbh, mbx, mby, luma_mode, chroma_mode, bmodes, resdata, top_border, left_border, ybuf, ubuf, vbuf,
+    )
+}
